@@ -348,6 +348,32 @@ impl CodegenContext {
         self.test_elements.clear();
         self.source_map.clear();
         self.analysis.clear_usages();
+
+        // A symbol that the pass that just ended did not define is not part of the program any more (its definition
+        // depended on something that has changed since): it may not be resolved in this pass. And variables are
+        // sequential: every pass starts without them, so a read in front of the first definition cannot see the
+        // last value of the previous pass.
+        let current_pass = self.pass_idx;
+        let outdated = self
+            .symbols
+            .all()
+            .into_iter()
+            .filter(|(_, (_, symbol))| {
+                // (symbols without a span are registered by the assembler itself, e.g. predefined constants)
+                symbol.span.is_some()
+                    && (symbol.pass_idx + 1 < current_pass || symbol.ty == SymbolType::Variable)
+            })
+            .map(|(_, (nx, _))| nx)
+            .collect_vec();
+        for nx in outdated {
+            // A symbol without a value would still hide an outer symbol of the same name, so take it out altogether
+            // (unless it is also a scope that holds other symbols)
+            if self.symbols.children(nx).is_empty() {
+                self.symbols.remove(nx);
+            } else {
+                self.symbols.update_data(nx, None);
+            }
+        }
     }
 
     fn try_current_target_pc(&self) -> Option<ProgramCounter> {
@@ -1455,7 +1481,7 @@ impl CodegenContext {
             .symbols
             .all()
             .into_iter()
-            .filter(|(_, (_, symbol))| symbol.pass_idx != final_pass)
+            .filter(|(_, (_, symbol))| symbol.pass_idx != final_pass && symbol.span.is_some())
             .map(|(_, (nx, _))| nx)
             .collect_vec();
         for nx in stale {
